@@ -209,7 +209,7 @@ func c01Ask(s *Server, uri protocol.DocumentURI, line, char uint32, only int) c0
 // c01FromAnalysis: answers that the server computes from the include tree stored by the
 // last background analysis (without a workspace root)
 func c01FromAnalysis(answer string) bool {
-	for _, n := range []string{"hover: ", "completion: ", "references: ", "definition: "} {
+	for _, n := range []string{"hover: ", "completion: "} {
 		if len(answer) >= len(n) && answer[:len(n)] == n {
 			return true
 		}
